@@ -170,7 +170,7 @@ def splittable(d, names, fs):
 
 # ------------------------------------------------------------------ running programs
 
-def run_batch(nevrun, items, tmpdir, workers=16, timeout=10):
+def run_batch(nevrun, items, tmpdir, workers=16, timeout=3):
     """items: list of (pid, source).  -> {pid: dict(out=[ints], outcome=(kind, detail), unhandled, status, text)}"""
     chunks = [items[i::workers] for i in range(workers)]
 
@@ -446,9 +446,11 @@ def run(ctx):
             stats["verify_ok"] += 1
         if lock.startswith("LOCKSTEP crash"):
             stats["lockstep_crash"] += 1
-            ctx.violation("lockstep-crash:%s" % coords_key(fam[key][3] if kind == "fam" else label),
-                          "real run of %s leaves the frame discipline: %s" % (label, lock),
-                          {"kind": "program", "program": fam[key][1] if kind == "fam" else label, "lockstep": lock, "verify": ver})
+            if stats["lockstep_crash"] <= 3:
+                ctx.violation("lockstep-crash:%s" % coords_key(fam[key][3] if kind == "fam" else label),
+                              "real run of %s leaves the frame discipline: %s" % (label, lock),
+                              {"kind": "program", "program": fam[key][1] if kind == "fam" else label,
+                               "lockstep": lock, "verify": ver})
         elif lock.startswith("LOCKSTEP mismatch") or lock.startswith("LOCKSTEP aritystuck") or lock == "timeout":
             stats["lockstep_mismatch"] += 1
             ctx.correspondence_broken("shape-machine-vs-vm:%s" % label,
@@ -533,7 +535,7 @@ def run(ctx):
     ctx.coverage["distinct_nontrivial"] = stats["family_with_fault"] + len(shapes) + ctx.coverage.get("parts", {}).get("exctab", {}).get("found", 0)
     ctx.coverage["rule"] = (
         "exctab: sorted random tables searched at every block boundary (distinct found-cases counted); "
-        "fault programs: templates kind(12) x argument position k(0..2) x nesting depth d(0..3 frames under construction) x clause "
+        "fault programs: templates kind(13) x argument position k(0..2) x nesting depth d(0..3 frames under construction) x clause "
         "j(0..3) levels up x clause order(first,last,only,dup,catch-all,absent) + faulting clauses + loops + closures + recursion + "
         "controls, seeded; expected markers/result/unhandled report from the property's closed form; non-trivial = a fault is "
         "actually raised; modules: every corpus + generated module through the extracted checker and the layout check; lock-step "
